@@ -283,6 +283,10 @@ class Tokenizer(object):
                     if not third_char:
                         # `^^' at the very end of the input is not a ^^X sequence
                         self.pushChar(next_char)
+                    elif ord(third_char) >= 128:
+                        # ^^X only denotes a character for X < 128
+                        self.pushChar(third_char)
+                        self.pushChar(next_char)
                     else:
                         num = ord(third_char)
                         if num >= 64:
